@@ -276,13 +276,31 @@ func (c07) Gen(tier string, seed int64, emit0 func([]Ev)) {
 			if st == nil {
 				st = [][]int{}
 			}
+			skip := 0
+			if n%5 == 2 && len(st) > 0 {
+				// the caller has already consumed the front of the stream (whole packets, among them an earlier table): the
+				// reader is handed over where it stands
+				decoy := patPacket(r, append([]byte{0}, patSection(randPAT(r, 1+r.Intn(3)))...), false)
+				var pre [][]int
+				for k := 1 + r.Intn(3); k > 0; k-- {
+					o := otherPacket(r)
+					pre = append(pre, B(o[:]))
+				}
+				pre = append(pre, B(decoy[:])) // the earlier table is the last thing the caller consumed
+				skip = len(pre)
+				st = append(pre, st...)
+			}
 			lead, leadN := []int{}, 0
-			if n%9 == 4 {
+			if n%9 == 4 && skip == 0 {
 				// the table far into the stream (or not there at all): tens of thousands of packets of another PID first
 				o := plainOther(r)
 				lead, leadN = B(o[:]), []int{5000, 70000, 100001, 300000}[r.Intn(4)]
 			}
-			emit([]Ev{{"op": "pat", "carrier": "stream", "abs": patEv(p), "stream": st, "tail": tail, "reader": c07Readers[r.Intn(len(c07Readers))], "lead": lead, "lead_n": leadN}})
+			rk := c07Readers[r.Intn(len(c07Readers))]
+			if skip > 0 && r.Intn(2) == 0 {
+				rk = "bytesreader" // a reader that can seek knows where it stands
+			}
+			emit([]Ev{{"op": "pat", "carrier": "stream", "abs": patEv(p), "stream": st, "tail": tail, "reader": rk, "lead": lead, "lead_n": leadN, "skip": skip}})
 		}
 		// sections longer than one packet can carry (up to 253 entries in 1021 bytes), as payload bytes
 		for _, n := range []int{43, 44, 63, 64, 65, 127, 128, 129, 200, 252, 253} {
@@ -373,7 +391,14 @@ func (c07) Exec(h []Ev) []Ev {
 					if n := GI0(e["lead_n"]); n > 0 { // one packet of another PID, n times, in front (described, not transmitted)
 						data = append(bytes.Repeat(GB(e["lead"]), n), data...)
 					}
-					pat, err := psi.ReadPAT(c07Reader(GS(e["reader"]), data))
+					rd := c07Reader(GS(e["reader"]), data)
+					e["skip"] = GI0(e["skip"])
+					if k := GI0(e["skip"]); k > 0 {
+						if _, cerr := io.CopyN(io.Discard, rd, int64(188*k)); cerr != nil {
+							panic("harness: cannot consume the front of the stream")
+						}
+					}
+					pat, err := psi.ReadPAT(rd)
 					c07Observe(e, pat, err)
 					if err == nil && pat != nil {
 						defer held.hold(func() string { t := Ev{}; c07Observe(t, pat, nil); return jsonOf(t) })
